@@ -47,6 +47,7 @@ type world struct {
 	step                   int
 	dead                   bool // a handler panicked or the process "exited"
 	rejectedReconf         bool // a configuration update was rejected (and reverted) in this incarnation
+	reconfiguredInc        bool // an accepted, non-identical reconfiguration happened in this incarnation
 	cfgChangedSinceCoexist bool // an accepted reconfiguration changed the configuration (C11 feasibility memory is void)
 	agt                    *agent.Agent
 	// per-request capture
@@ -461,6 +462,7 @@ func (w *world) doOp(op *Op) *reply {
 		if rep.err == nil && !rep.crashed {
 			if !op.identical {
 				w.cfgChangedSinceCoexist = true
+				w.reconfiguredInc = true
 			}
 			w.cfg = op.Cfg
 			w.res.Probe("reconfigure-accepted")
@@ -485,6 +487,7 @@ func (w *world) doOp(op *Op) *reply {
 		resmgr.VerifStopEvents(w.rm)
 		w.res.Fault("restart.clean")
 		w.rejectedReconf = false
+		w.reconfiguredInc = false
 		if err := w.bootRecover(w.cfg); err != nil {
 			rep.err = err
 			return rep
